@@ -232,6 +232,7 @@ def cplxOK (h : ImageHeaderFields) : Bool :=
 
 /-- `_handle_no_compression` -/
 def assembleBPR (h : ImageHeaderFields) (o : ReaderOptions) (applyFormat : Bool) : Except Err Seg :=
+  if h.nbands = 0 then .error .grid else
   if !gridOK h then .error .grid else
   if !cplxOK h then .error .unmodelled else
   let bd := rawBandDim h.imode
@@ -269,6 +270,12 @@ def assembleS (h : ImageHeaderFields) (o : ReaderOptions) (applyFormat : Bool) :
       .ok (wrap (orientLast h.cplx h.nbands o applyFormat)
         (.bands 2 (mkSegs (table.map (fun row =>
           Seg.orient [] [0, 1] (.blocks [h.nrows, h.ncols] (mkBlks (blockList h o.memmap 1 2 bnds row))))))))
+
+/-- what lies below the outermost segment: its formatted data is the raw data (`read_raw`) of the outermost one -/
+def below : Seg → Seg
+  | .orient _ _ p => p
+  | .cplx _ _ _ _ p => p
+  | t => t
 
 /-- `create_data_segment_for_image_segment(index, apply_format)` for IC = NC / NM -/
 def assembleImage (h : ImageHeaderFields) (o : ReaderOptions) (applyFormat : Bool) : Except Err Seg :=
